@@ -15,6 +15,8 @@ fn suffixes(b: &[u8], long: bool) -> Vec<Vec<u8>> {
         b.to_vec(),
         vec![0x16, 0x03, 0x03, 0x00, 0x04, 0x00, 0x00, 0x00, 0x00],
         vec![0x00, 0x17, 0x00, 0x00],
+        vec![0x17, 0x03, 0x03, 0x00, 0x02, 0xaa, 0xbb],
+        vec![0x14, 0x03, 0x03, 0x00, 0x01, 0x01],
     ];
     // the inside of the structure repeated after it: its inner elements (messages of a record,
     // entries of a list, the content of an extension) then look like valid continuation data
